@@ -243,7 +243,6 @@ var ErrFromItemLateralAndOnly = errors.New("from item: cannot specify both LATER
 func (i fromItem) WriteSQL(sb *SQLBuilder) {
 	if i.lateral && i.only {
 		sb.AddError(ErrFromItemLateralAndOnly)
-		return
 	}
 	if i.only {
 		sb.WriteString("ONLY ")
